@@ -18,8 +18,9 @@ def stdout_broke(st):
     BrokenPipeError (uncaught, as in any Python program).  What it printed cannot be judged then; what it
     started, overlapped, recorded or left on disk still is (C01, C04, C06, C08)."""
     inv = st.inv
-    return bool(st.op.get("own_stdout")) and inv is not None and inv.internal is not None \
-        and inv.internal[0] == "BrokenPipeError"
+    return bool(st.op.get("own_stdout")) and inv is not None and (
+        getattr(inv, "stdout_broken", False)
+        or (inv.internal is not None and inv.internal[0] == "BrokenPipeError"))
 
 
 def run_steps(run, io_faulted=False):
